@@ -19,6 +19,7 @@ Pool11 == { <<"a">>, <<"b">>, <<"a","b">>, <<"a",":",":","a">>, <<"a",":",":","b
 Pool6 == { <<"a">>, <<"a","b">>, <<"a",":",":","a">>, <<"a",":",":","a",":",":","b">>,
            <<"a",":",":","b">>, <<":",":","a">> }
 Pool4 == { <<"a">>, <<"a",":",":","b">>, <<"a",":",":","b",":",":","a">>, <<"b">> }
+Pool4b == { <<"a">>, <<"a",":",":","a">>, <<"a",":",":","a",":",":","b">>, <<"a","b">> }
 AppLists3 == { <<>>, <<"A">>, <<"B","A">> }
 AppLists4 == { <<>>, <<"A">>, <<"B","A">>, <<"A","A">> }
 
